@@ -790,7 +790,7 @@ def gen_cases(ctx):
         # the property's quantifier for N = 4: every branch list of length 0..4 over the four kinds, every
         # bufsize, both copy_buf, every stop index (lists of length 4 on flows of length 0..3; 0..3 on length 4)
         exh = {0: 4, 1: 4, 2: 4, 3: 4, 4: 3}
-        n_run, n_meth, n_zip, n_runx, n_zctx = 30000, 8000, 6000, 20000, 8000
+        n_run, n_meth, n_zip, n_runx, n_zctx = 24000, 8000, 6000, 15000, 6000
         maxbr, maxn = 5, 8
         spec_every, spec_p = 8, 0.3
     ctx.exhaustive = False  # the random part is sampled
@@ -1175,6 +1175,16 @@ def _init_impl(case):
 
 
 def run_impl(case):
+    """the result is kept as one JSON string: the nested lists of a thorough run would need several GB"""
+    return {"packed": jdump(_run_impl(case))}
+
+
+def _unp(res):
+    import json
+    return json.loads(res["packed"]) if isinstance(res, dict) and "packed" in res else res
+
+
+def _run_impl(case):
     op = case["op"]
     if op == "run":
         return {"runs": [_run_split(case["brs"], case["flow"], bs, case["copy_buf"], bool(case.get("spec")))
@@ -1372,10 +1382,14 @@ def _cmp_runx(case, res, m):
 
 
 def compare(case, res, replies):
+    import json
     op = case["op"]
+    res = _unp(res)
     m = replies[0]
     if "err" in m:
         return f"model driver error: {m['err']}"
+    if "z" in m:
+        m = json.loads(m["z"])
     if op == "run":
         for bs, r, mr in zip(case["bufsizes"], res["runs"], m["runs"]):
             msg = _cmp_run(case["brs"], r, mr, f"bufsize={bs}", case["flow"], bs)
@@ -1776,6 +1790,7 @@ def _oracle_init(case, res):
 
 
 def oracle(case, res):
+    res = _unp(res)
     op = case["op"]
     if op == "run":
         return _oracle_run(case, res)
@@ -1812,6 +1827,7 @@ def _show(sp):
 
 
 def nontrivial(case, res):
+    res = _unp(res)
     op = case["op"]
     if op == "run":
         return len(case["brs"]) >= 2 and any(r.get("out") for r in res["runs"])
@@ -1827,6 +1843,7 @@ def nontrivial(case, res):
 
 
 def classify(case, res):
+    res = _unp(res)
     op = case["op"]
     if op == "run":
         ks = sorted(set(sp["k"] for sp in case["brs"]))
@@ -1969,44 +1986,62 @@ def shrink(case):
 TRUSTED = [
     "Lean 4.33.0 kernel; axioms limited to propext, Classical.choice, Quot.sound (audited by #print axioms on every run)",
     "hand transcription of lena/core/split.py (run, _fill, _compute, _request, __call__, __init__, _get_seq_with_type), "
-    "lena/core/check_sequence_type.py and lena/flow/zip.py (__init__, _fill, _yield) into LenaModel/Model/C03.lean, "
-    "validated by this correspondence check",
-    "the instrumented harness elements (harness/props/c03.py) and their Lean counterparts (BSpec.ops), "
+    "lena/core/check_sequence_type.py and lena/flow/zip.py (__init__ incl. fields, _fill, _compute/_request, _yield, "
+    "_create_data) into LenaModel/Model/C03.lean, C03X.lean (exceptions of branches, objects after the run, bufsize "
+    "arguments), C03Zip.lean (values with context; _create_context is Lena.C07.zipCreateContext), validated by this "
+    "correspondence check; the specification-side definitions (Model/C03Spec.lean, blocks, schedule, life) are executed "
+    "by the driver and compared with the real code / Python references as well",
+    "the instrumented harness elements (harness/props/c03.py) and their Lean counterparts (BSpec.ops, XSpec.ops), "
     "validated against each other on every case",
     "JSON line protocol encoders (harness/props/c03.py, drivers/C03.lean)",
 ]
 ASSUMPTIONS = [
-    "a branch is an object whose methods are functions of its own state (no shared state between branches: C04)",
+    "a branch is an object whose methods are functions of its own state: two branches do not share an element "
+    "object or other state (aliasing between branches: C04)",
     "copy.deepcopy of a buffer is the same value: branches do not mutate flow values (aliasing is C04)",
-    "the only exception a branch method raises is LenaStopFill, from fill",
-    "generators returned by branch methods are consumed to the end by Split.run (finite flows; laziness is C02)",
-    "Zip is modelled on values without context (data tuples); the context algebra of _create_context is C07",
+    "generators returned by branch methods are consumed to the end by Split.run unless they raise (finite flows; "
+    "laziness is C02); an exception of a branch is modelled for the branches of the enclosing Split, not inside a "
+    "nested Split",
+    "Zip: valid distinct field names (namedtuple's own ValueError and the pickling hook globals()[name] are outside); "
+    "Zip._create_context is C07's model and theorem (Lena.C07.zip_context), imported",
+    "LenaSplit._get_context/_set_context (static context: C13), _repr_nested/__repr__/__eq__ are not part of the "
+    "statement and not modelled",
 ]
 RULE = ("op=run: one case = (branch list, flow, copy_buf) run under EVERY bufsize in {1..len(flow)+1, 1000, None}; "
         "exhaustive over the four branch kinds with tagged outputs and LenaStopFill at every fill index "
         "(quick: lists 0..3 for flows 0..2, 0..2 for flows 3..4; thorough: lists 0..4 for flows 0..3, 0..3 for flows "
-        "of length 4), plus seeded random cases (lists 0..4/5, flows 0..8 of random integers, 7 kinds of run "
-        "elements, lena.math.Sum, late/multi-result variants, every argument form accepted by _get_seq_with_type "
-        "incl. tuples with pre-/post-processing callables, a common-type Split nested as a branch); "
-        "op=methods / zip: random common-type and mixed branch lists (zip also with results carrying contexts, "
-        "oracle only); op=init: every capability subset as a single argument, tuples over 16 representative "
-        "capability sets, pairs, random lists; corpus/C03: regression cases. "
+        "of length 4), plus seeded random cases (lists 0..4/5, flows 0..8 of random integers, 8 kinds of run "
+        "elements incl. a Cache-like one, lena.math.Sum, late/multi-result variants, every argument form accepted by "
+        "_get_seq_with_type incl. tuples with pre-/post-processing callables, a common-type Split nested as a branch); "
+        "for the cases flagged spec (all in quick, 1/8 resp. 30% in thorough) also the interleaved per-branch trace "
+        "against the Lean closed forms; op=runx: branches raising ValueError from fill or from inside their "
+        "generators, 1..3 consecutive runs of one Split object with the element states read back after each run, "
+        "nested Splits of any inner mix (run once per block when they have no common fill type), bufsize arguments "
+        "that are not int; op=methods / zip (incl. a second compute()/request() of the same Zip): random common-type "
+        "and mixed branch lists; op=zipctx: Zip over canned results with random contexts over {a,b,zip}, fields as "
+        "list/str/none of every length, reset(); op=init: every capability subset as a single argument, tuples over "
+        "16 representative capability sets, pairs, random lists, check_sequence_type predicates called directly; "
+        "corpus/C03: regression cases. "
         "Non-trivial: >= 2 branches and a non-empty output (run), a non-empty result or an exception (others).")
 LEVEL_TEXT = ("Lean 4 theorems about a transcribed model of Split.run (block loop, index loop with in-place deletion, "
-              "final pass), Split's common-type methods, _get_seq_with_type and Zip._yield, for ALL branch lists (any "
+              "final pass), Split's common-type methods, _get_seq_with_type and Zip, for ALL branch lists (any "
               "length, any mix of the four kinds, arbitrary stateful branch methods), all flows, every bufsize in N+ or "
               "None and both copy_buf: the trace of Split.run equals the documented schedule (block by block, branch by "
               "branch, each branch's contribution a function of that branch and the blocks alone), with per-kind "
-              "projections, LenaStopFill finalise-once-and-drop, exactly-once invocation on an empty flow, bufsize "
-              "independence for fill/compute and streaming branches, identity of the empty Split, common-type "
-              "fill/compute, fill/request and __call__, Zip's i-th tuples. The model is tied to /repo by a "
-              "correspondence check on event traces (outputs + per-branch invocation logs) that enumerates the four "
-              "kinds x every bufsize x both copy_buf x every LenaStopFill index for branch lists 0..4 and flows 0..4 "
-              "(thorough; lists 0..3 on flows 0..2 in quick) plus seeded random richer cases, and by a reference-"
-              "schedule oracle run on fresh branch objects.")
+              "closed forms, LenaStopFill finalise-once-and-drop, exactly-once invocation on an empty flow, bufsize "
+              "independence for fill/compute and streaming branches, every branch given a prefix of the flow, identity "
+              "of the empty Split, common-type fill/compute, fill/request and __call__ (also nested in another Split), "
+              "tuple conversions, the objects left in self._seqs (each determined by its own branch; running a Split "
+              "twice), an exception of a branch cutting the schedule without changing what precedes it, Zip's i-th "
+              "tuples and losslessness on values with context. The model is tied to /repo by a correspondence check on "
+              "event traces (outputs, per-branch invocation logs, per-branch interleaved traces, element states) that "
+              "enumerates the four kinds x every bufsize x both copy_buf x every LenaStopFill index for branch lists "
+              "0..4 and flows 0..4 (thorough; lists 0..3 on flows 0..2 in quick) plus seeded random richer cases, and by "
+              "a reference-schedule oracle run on fresh branch objects.")
 LEVEL_NOTE = ("Trusted: Lean kernel (+ propext, Classical.choice, Quot.sound), the hand transcription validated by the "
               "correspondence run, the instrumented harness elements and their Lean counterparts, the JSON protocol. "
-              "Modelled, not verified: copy.deepcopy as value identity (aliasing: C04), generators consumed to the end "
-              "(laziness: C02), branch methods raising nothing but LenaStopFill, Zip on values without context.")
+              "Modelled, not verified: copy.deepcopy as value identity and branches without shared objects (aliasing: "
+              "C04), generators consumed to the end (laziness: C02), Zip's context algebra taken from C07, static "
+              "context / repr / equality of LenaSplit left out.")
 TECHNIQUE = "Lean 4 proof over hand-written model + correspondence check (event traces) + reference-schedule oracle"
 DESIGN_REF = "DESIGN.md section 3, C03"
